@@ -117,15 +117,18 @@ def nodupBy {α} (eq : α → α → Bool) : List α → Bool
   | [] => true
   | x :: xs => !xs.any (eq x) && nodupBy eq xs
 
+/-- everything, for all states of the list `all` (`n` qubits) -/
+def allOkOn (pr : Params) (n : Nat) (all : List Pair) : Bool :=
+  nodupBy (fun a b => a.1 == b.1) all && nodupBy (fun a b => a.2 == b.2) all &&
+  all.all fun tv =>
+    pairOk pr tv && gatesOk pr n all tv &&
+    (List.range n).all fun q => measureOk pr n all tv q && resetOk pr n all tv q
+
 /-- everything, for all enumerated states of `n` qubits -/
 def allOk (pr : Params) (n fuel : Nat) : Bool :=
   match closure pr n fuel with
   | none => false
-  | some all =>
-    nodupBy (fun a b => a.1 == b.1) all && nodupBy (fun a b => a.2 == b.2) all &&
-    all.all fun tv =>
-      pairOk pr tv && gatesOk pr n all tv &&
-      (List.range n).all fun q => measureOk pr n all tv q && resetOk pr n all tv q
+  | some all => allOkOn pr n all
 
 /-- states on which reset of qubit `q` is the defect D4 (fair and entangled) -/
 def resetDefect (n q : Nat) (v : Vec) : Bool :=
